@@ -83,6 +83,8 @@ pub struct MirrorWorld<K: Kit> {
     /// shared between the checkers of one history (the trace is cumulative)
     pub calls: std::rc::Rc<Cell<u64>>,
     pub hash: std::rc::Rc<Cell<u64>>,
+    /// the first states the checker was asked about (flattened), for the knife-edge scenarios
+    pub seen: std::rc::Rc<std::cell::RefCell<Vec<Vec<f64>>>>,
     _k: std::marker::PhantomData<K>,
 }
 impl<K: Kit> StateValidityChecker<K::S> for MirrorWorld<K> {
@@ -90,6 +92,9 @@ impl<K: Kit> StateValidityChecker<K::S> for MirrorWorld<K> {
         let mut x = Vec::with_capacity(8);
         flatten(&K::to_v(s), &mut x);
         self.calls.set(self.calls.get() + 1);
+        if self.seen.borrow().len() < 400 {
+            self.seen.borrow_mut().push(x.clone());
+        }
         let mut h = self.hash.get();
         for c in &x {
             fnv_f64(&mut h, *c);
@@ -200,8 +205,9 @@ pub fn core_result<K: Kit>(sc: &PyScenario) -> Value {
     let space = Arc::new(K::build(&sc.spec));
     let calls = std::rc::Rc::new(Cell::new(0u64));
     let hash = std::rc::Rc::new(Cell::new(0xcbf29ce484222325u64));
-    let world = Arc::new(MirrorWorld::<K> { obstacles: sc.obstacles.clone(), calls: calls.clone(), hash: hash.clone(), _k: std::marker::PhantomData });
-    let world2 = Arc::new(MirrorWorld::<K> { obstacles: sc.obstacles2.clone(), calls: calls.clone(), hash: hash.clone(), _k: std::marker::PhantomData });
+    let seen = std::rc::Rc::new(std::cell::RefCell::new(Vec::new()));
+    let world = Arc::new(MirrorWorld::<K> { obstacles: sc.obstacles.clone(), calls: calls.clone(), hash: hash.clone(), seen: seen.clone(), _k: std::marker::PhantomData });
+    let world2 = Arc::new(MirrorWorld::<K> { obstacles: sc.obstacles2.clone(), calls: calls.clone(), hash: hash.clone(), seen: seen.clone(), _k: std::marker::PhantomData });
     let goal = Arc::new(MirrorGoal::<K> { preds: sc.goal_preds.clone(), samples: sc.goal_samples.iter().map(K::from_v).collect(), sample_calls: Cell::new(0), pred_calls: Cell::new(0) });
     let pd = Arc::new(ProblemDefinition { space, start_states: vec![K::from_v(&sc.start)], goal: goal.clone() });
     let cfg = PlannerConfig { seed: Some(sc.seed) };
@@ -265,7 +271,8 @@ pub fn core_result<K: Kit>(sc: &PyScenario) -> Value {
             other => panic!("unknown history op {other}"),
         }
     }
-    json!({"calls": out_calls, "valid_calls": calls.get(), "valid_hash": hash.get(), "goal_pred_calls": goal.pred_calls.get(), "goal_sample_calls": goal.sample_calls.get()})
+    json!({"calls": out_calls, "valid_calls": calls.get(), "valid_hash": hash.get(), "goal_pred_calls": goal.pred_calls.get(), "goal_sample_calls": goal.sample_calls.get(),
+        "seen_first_coordinate": seen.borrow().iter().map(|x| x[0].to_bits()).collect::<Vec<u64>>()})
 }
 
 fn quat(axis: [f64; 3], deg: f64) -> [f64; 4] {
@@ -313,6 +320,15 @@ pub fn scenarios(tier: &str) -> Vec<PyScenario> {
             goal_preds: vec![Pred::Range { i: 0, lo: 1.4, hi: 1.6 }],
             goal_samples: vec![V::So2(1.5), V::So2(1.5625)],
             worlds: vec![vec![], vec![Pred::Range { i: 0, lo: -0.5, hi: 0.0 }], vec![Pred::Range { i: 0, lo: 2.5, hi: 3.0 }, Pred::Range { i: 0, lo: -0.25, hi: 0.25 }], vec![Pred::Range { i: 0, lo: -3.125, hi: -2.75 }]],
+            unit: 0.3,
+        },
+        Variant {
+            kit: "SO2",
+            spec: Spec::So2 { bounds: Some((-2.5, 2.8)), frac: None },
+            start: V::So2(-2.0),
+            goal_preds: vec![Pred::Range { i: 0, lo: 1.4, hi: 1.6 }],
+            goal_samples: vec![V::So2(1.5), V::So2(1.5625)],
+            worlds: vec![vec![], vec![Pred::Range { i: 0, lo: -0.5, hi: 0.0 }], vec![Pred::Range { i: 0, lo: 2.5, hi: 3.0 }, Pred::Range { i: 0, lo: -0.25, hi: 0.25 }], vec![Pred::Range { i: 0, lo: -1.0, hi: -0.75 }]],
             unit: 0.3,
         },
         Variant {
@@ -381,7 +397,7 @@ pub fn scenarios(tier: &str) -> Vec<PyScenario> {
                     for &seed in &seeds {
                         let step = v.unit * sm * if planner == "PRM" { 3.0 } else { 1.0 };
                         let base = PyScenario {
-                            id: format!("{}/{}/w{wi}/p{pi}/s{seed}", v.kit, planner),
+                            id: format!("{}/{}/w{wi}/p{pi}/s{seed}", if matches!(v.spec, Spec::So2 { bounds: Some(_), .. }) { "SO2b" } else { v.kit }, planner),
                             kit: v.kit,
                             spec: v.spec.clone(),
                             frac: None,
@@ -739,6 +755,39 @@ pub fn run_c19(tier: &'static str) -> i32 {
             j
         })
         .collect();
+    // knife-edge scenarios: an obstacle edge is placed EXACTLY on a state the core showed to the validity
+    // checker (closed range, so that state is invalid and its floating-point neighbour below is valid).
+    // If the binding shows the Python callback anything but the core's own state - a re-canonicalised
+    // angle, a converted copy that lost a bit - the verdict flips and the returned paths differ.
+    let mut knife: Vec<Value> = Vec::new();
+    for (sc, c) in scs.iter().zip(cases.iter()) {
+        if sc.id.contains("/h-") || sc.id.contains("/at-goal") || sc.id.contains("/frac") || !sc.id.contains("/p0/") || sc.planner == "PRM" {
+            continue;
+        }
+        let seen: Vec<u64> = c["expected"]["seen_first_coordinate"].as_array().map(|a| a.iter().filter_map(|x| x.as_u64()).collect()).unwrap_or_default();
+        if seen.len() < 8 {
+            continue;
+        }
+        let mut start0 = Vec::new();
+        flatten(&sc.start, &mut start0);
+        for (k, frac) in [(0usize, 0.3), (1, 0.55), (2, 0.8)] {
+            let a = f64::from_bits(seen[((seen.len() as f64) * frac) as usize]);
+            for (side, lo, hi) in [("lo", a, a + 0.02), ("hi", a - 0.02, a)] {
+                if !a.is_finite() || (start0[0] >= lo && start0[0] <= hi) {
+                    continue;
+                }
+                let mut x = sc.clone();
+                x.id = format!("{}/knife{k}{side}", sc.id);
+                x.obstacles.push(Pred::Range { i: 0, lo, hi });
+                let mut j = x.json();
+                j["expected"] = core_for(&x);
+                knife.push(j);
+            }
+        }
+    }
+    rep.count("knife_edge_scenarios", knife.len() as u64);
+    let mut cases = cases;
+    cases.extend(knife);
     if cases.iter().any(|c| c.get("nondeterministic_core").is_some()) {
         rep.engine_error("the Rust core gave two different results for the same scenario".into());
     }
@@ -761,7 +810,7 @@ pub fn run_c19(tier: &'static str) -> i32 {
         exhaustive: true,
         bounds: json!({"scenarios": scs.len()}),
         assumptions: vec!["Python floats are IEEE doubles and the callbacks use only +, -, *, abs and comparisons in a fixed order".into(), "the extension is the cdylib built from /repo with --features oxmpl/verif".into()],
-        must_be_positive: vec!["scenarios_compared", "paths_compared_bitwise", "prm_paths_checked_sound", "wrapper_cases", "wrapper_errors_expected", "validity_calls_compared", "validity_traces_identical", "multi_call_histories_compared", "paths_with_repeated_final_state"],
+        must_be_positive: vec!["scenarios_compared", "paths_compared_bitwise", "prm_paths_checked_sound", "wrapper_cases", "wrapper_errors_expected", "validity_calls_compared", "validity_traces_identical", "multi_call_histories_compared", "paths_with_repeated_final_state", "knife_edge_scenarios"],
     };
     finish(&meta, rep, t0)
 }
